@@ -19,7 +19,7 @@ PID = "C19"
 RULE = (
     "Hypothesis-generated exception graphs as recipes: 1-6 nodes, each a class from a 38-entry catalogue (builtins incl. "
     "OSError family / UnicodeDecodeError / KeyError / StopIteration / ExceptionGroup, BaseException subclasses, "
-    "module-level, nested, function-local, type()-created, name-shadowing, unloaded-module and module-less (__module__ None) classes, custom __init__ "
+    "classes with value equality (hand-written __eq__/__hash__, a dataclass exception) with distinct-but-equal objects on one chain, module-level, nested, function-local, type()-created, name-shadowing, unloaded-module and module-less (__module__ None) classes, custom __init__ "
     "signatures, taskiq's own errors), 0-3 args from JSON-native values (incl. >64-bit ints, nested containers) or 23 "
     "awkward ones (bytes, set, complex, datetime, Decimal, lambda, lock, generator, un-repr-able object, nan/inf, tuple, "
     "int-keyed dict, str subclass, lone-surrogate text and key, NUL, exception instances incl. ones that pickle but cannot be unpickled), cause / context edges to ANY node (shared nodes, "
@@ -49,6 +49,7 @@ CLASSES: Dict[str, Any] = dict(
     UnicodeEncodeError=UnicodeEncodeError, ExceptionGroup=ExceptionGroup, AttributeError=AttributeError,
     ModErr=excat.ModErr, ModBase=excat.ModBase, Inner=excat.Outer.Inner, Innermost=excat.Outer.Deeper.Innermost, TwoArgs=excat.TwoArgs,
     KwOnly=excat.KwOnly, NoArgsKept=excat.NoArgsKept, WithState=excat.WithState, DerivedKeyErr=excat.DerivedKeyErr, PickyInit=excat.PickyInit, ValueInit=excat.ValueInit,
+    ValueEq=excat.ValueEq, DataErr=excat.DataErr,
     Loc=excat.make_local(), LocB=excat.make_local_base(), Dyn=excat.Dyn, DynHidden=excat.DynHidden, DynShadow=excat.DynShadow, DynNoModule=excat.DynNoModule,
     BadReprExc=excat.BadReprExc, TqTimeout=TaskiqResultTimeoutError, NoResult=NoResultError, Security=SecurityError, SendTask=SendTaskError,
 )
@@ -63,7 +64,20 @@ NODE = st.fixed_dictionaries(dict(
 
 
 def graphs() -> Any:
-    return st.fixed_dictionaries({"nodes": st.lists(NODE, min_size=1, max_size=6)})
+    def fin(d: Dict[str, Any]) -> Dict[str, Any]:
+        # `like`: a node that is a different object with the class and arguments of another node (re-raising an equal
+        # error while handling the first one); with a value-equal class the two compare equal without being the same object
+        nodes = d["nodes"]
+        for i, (like, veq) in enumerate(d["like"][:len(nodes)]):
+            if like is not None and like < len(nodes) and like != i:
+                nodes[i]["cls"], nodes[i]["args"] = nodes[like]["cls"], [list(a) for a in nodes[like]["args"]]
+                if veq:
+                    nodes[i]["cls"] = nodes[like]["cls"] = veq
+                    nodes[i]["args"] = nodes[like]["args"] = [a for a in nodes[like]["args"] if a[0] == "json"][:2]
+        return {"nodes": nodes}
+
+    like = st.tuples(st.one_of(st.none(), st.none(), st.integers(0, 5)), st.sampled_from([None, "ValueEq", "DataErr"]))
+    return st.fixed_dictionaries({"nodes": st.lists(NODE, min_size=1, max_size=6), "like": st.lists(like, min_size=6, max_size=6)}).map(fin)
 
 
 def parts(tier: str) -> List[Part]:
@@ -293,8 +307,10 @@ def run_case(case: Dict[str, Any]) -> Outcome:
     nonres = any(not resolvable(CLASSES[g[i]["cls"]]) for i in reach)
     nonenc = any(a[0] == "special" for i in reach for a in g[i]["args"])
     cyc = has_cycle(g)
-    out.nontrivial = bool((len(reach) >= 2 and (nonres or nonenc)) or cyc)
-    out.classes = [c for c, f in (("cycle", cyc), ("non_resolvable_class", nonres), ("awkward_arg", nonenc),
+    rl = sorted(reach)
+    twins = any(g[a]["cls"] in ("ValueEq", "DataErr") and g[a]["cls"] == g[b]["cls"] and g[a]["args"] == g[b]["args"] for a in rl for b in rl if a < b)
+    out.nontrivial = bool((len(reach) >= 2 and (nonres or nonenc)) or cyc or twins)
+    out.classes = [c for c, f in (("cycle", cyc), ("non_resolvable_class", nonres), ("awkward_arg", nonenc), ("value_equal_distinct_nodes", twins),
                                   ("chain>=3", len(reach) >= 3), ("single_node", len(reach) == 1)) if f]
     out.trace = {"reachable_nodes": len(reach)}
     return out
